@@ -187,6 +187,11 @@ def c02(tier):
     cond1 = binop(">", "Me_1", 1)
     cond2 = binop("and", binop(">", "Me_1", 0), binop("<", "Me_2", 5))
     cond3 = binop("or", unop("isnull", "Me_1"), binop("=", "Id_2", const("a")))
+    out.append(T("calc_attr_back_to_measure_unpivot", unpivot(calc(calc("DS_1", [("attribute", "Me_2", "Me_2")]), [("measure", "Me_2", binop("*", "Me_2", 10))]), "Id_9", "Me_9"), n))
+    out.append(T("calc_attr_then_other_statement", unpivot("DS_1", "Id_9", "Me_9"), n,
+                 extra_stmts=[assign("DS_a", filter_(calc("DS_1", [("attribute", "Me_2", "Me_2")]), binop(">", "Me_1", 0)))], check=["DS_a", "DS_r"]))
+    out.append(T("calc_new_attr_then_unpivot", unpivot(calc("DS_1", [("attribute", "At_9", "Me_2")]), "Id_9", "Me_9"), n))
+    out.append(T("calc_identifier_keep_rename", rename(keep(calc("DS_3", [("identifier", "Id_3", "Id_1")]), ["Me_1"]), [("Id_3", "Id_4")]), n))
     out.append(T("unpivot_two_measures", unpivot("DS_1", "Id_9", "Me_9"), n))
     out.append(T("unpivot_one_measure", unpivot("DS_4", "Id_9", "Me_9"), n))
     out.append(T("unpivot_then_filter", filter_(unpivot("DS_1", "Id_9", "Me_9"), binop(">", "Me_9", 0)), n))
@@ -354,6 +359,11 @@ def c05(tier):
         out.append(T("exists_in_narrow_right_%s" % tag, exists_in("DS_4", "DS_6", ret), 2))
     out.append(T("exists_in_of_filter", exists_in("DS_4", filter_("DS_5", binop(">", "Me_1", 0))), 2))
     out.append(T("exists_in_then_filter", filter_(exists_in("DS_4", "DS_5", "all"), "bool_var"), 2))
+    MF = POOL + [structure("DS_m1", [("Me_1", "Integer", M, True), ("Id_1", "Integer", I, False), ("Id_2", "String", I, False)]),
+                 structure("DS_m2", [("Me_1", "Integer", M, True), ("Id_1", "Integer", I, False), ("Id_2", "String", I, False)])]
+    for op in ("union", "intersect", "setdiff", "symdiff"):
+        out.append(T("%s_measure_declared_first" % op, setop(op, ["DS_m1", "DS_m2"]), 2, structs=MF))
+    out.append(T("exists_in_measure_declared_first", exists_in("DS_m1", "DS_m2", "all"), 2, structs=MF))
     out.append(T("union_self", setop("union", ["DS_4", "DS_4"]), 2))
     out.append(T("union_of_filter", setop("union", [filter_("DS_4", binop(">", "Me_1", 0)), "DS_5"]), 2))
     out.append(T("setdiff_of_union", setop("setdiff", [setop("union", ["DS_4", "DS_5"]), "DS_4b"]), 2, structs=POOL + [S("DS_4b", ID2, [("Me_1", "Integer")])]))
@@ -492,6 +502,8 @@ def c06(tier):
         out.append(T("calc_%s" % op, calc("DS_4", [("measure", "Me_9", analytic(op, "Me_1", win=wins["default"], **P1))]), n))
     for op in ("lag", "lead"):
         out.append(T("ds_%s_1" % op, analytic(op, "DS_4", params=[1], **P1), n))
+        out.append(T("ds_%s_1_default" % op, analytic(op, "DS_4", params=[1, 7], **P1), n))
+        out.append(T("calc_%s_2_default" % op, calc("DS_4", [("measure", "Me_9", analytic(op, "Me_1", params=[2, -1], **PD))]), n))
         out.append(T("ds_%s_2_desc" % op, analytic(op, "DS_4", params=[2], **PD), n))
         out.append(T("calc_%s_1" % op, calc("DS_4", [("measure", "Me_9", analytic(op, "Me_1", params=[1], **P1))]), n))
     out.append(T("ds_rank", calc("DS_4", [("measure", "Me_9", analytic("rank", None, partition_by=["Id_1"], order_by=[("Me_1", "asc")]))]), n))
@@ -939,6 +951,9 @@ def cross(tier):
                    T("x_membership_of_id", member("DS_1", "Id_2"), n),
                    T("x_nvl_ds_ds", binop("nvl", "DS_4", "DS_5"), n),
                    T("x_case_three", case([(binop(">", "DS_4", 5), "DS_4"), (binop("<", "DS_4", 0), "DS_5")], "DS_4"), n),
+                   T("x_case_else_nullable", calc("DS_4", [("measure", "Me_9", case([(binop(">", "Id_1", 0), "Id_1")], "Me_1"))]), n),
+                   T("x_case_then_nullable", calc("DS_4", [("measure", "Me_9", case([(binop(">", "Id_1", 0), "Me_1")], "Id_1"))]), n),
+                   T("x_if_else_nullable", calc("DS_4", [("measure", "Me_9", if_(binop(">", "Id_1", 0), "Id_1", "Me_1"))]), n),
                    T("x_between_ds_bounds", between("DS_4", 0, 5), n),
                    T("x_not_in_ds", in_("DS_4", [1, 2], neg=True), n)]
     out["c02"] += [T("x_calc_attribute_then_keep", keep(calc("DS_1", [("attribute", "At_9", binop("||", "Id_2", const("x")))]), ["Me_1"]), n),
